@@ -4,5 +4,5 @@ CONSTANTS
   Levels <- LevelsThorough
   MaxToggles = 3
 CONSTRAINT Emit
-INVARIANTS InvRefinesEnvelope InvAgreement InvOnlyIfBoth InvPair
+INVARIANTS InvRefinesEnvelope InvAgreement InvOnlyIfBoth InvPair InvLatched
 CHECK_DEADLOCK FALSE
